@@ -60,7 +60,9 @@ ASSUMPTIONS = ['the PSF model classes themselves are judged by C13 and make_mode
                '(calibrated: see max_deviation)',
                'a recovery failure is attributed to photutils only when an independent fit of the same group (own fit '
                'windows and ordering, same astropy TRFLSQFitter, numerical Jacobian, same start) does recover the truth; '
-               'otherwise the optimiser left its basin and the case is counted under notes.recovery_undecided_* '
+               'otherwise the optimiser left its basin / stopped short and the case is counted under notes.recovery_undecided_* '
+               'or notes.scale_relation_undecided_* (same rule for the image x k relation: scipy TRF with x_scale=1 is not '
+               'scale free on one-sided edge-clipped windows) '
                '(3 of 17123 thorough scenes)',
                'astropy Table/QTable semantics (group_by, join) are trusted',
                'DAOStarFinder (class finder) is judged by C14; cases where it does not return one detection within '
@@ -1247,19 +1249,42 @@ def _rel_scale(case, o, s, model, grouper, data, mask, error, init, names, bound
         case.close(_col(t2, c), _col(tbl, c), 'image_times_k_keeps_bookkeeping', mech=dict(sm, col=c))
     if o['perturbed'] or o['maxiters'] is not None or getattr(s, 'undecided', False):
         return
+    if bounds is None:
+        bx = by = None
+    elif np.ndim(bounds) == 0:
+        bx = by = float(bounds)
+    else:
+        bx, by = bounds
+    fitgroup = _col(tbl, 'group_id')
+    pend = {}
     for kk in range(len(tbl)):
         i = R[kk]
         if limited_grp[i]:
             continue
         tag = 'isolated' if gsize[i] == 1 else 'grouped'
         rt = 1e-4 if gsize[i] == 1 else 2 * TOL_GRP['flux']
+        pt = 1e-4 if gsize[i] == 1 else 2 * TOL_GRP['pos']
         d = abs(_col(t2, 'flux_fit')[kk] / (k * _col(tbl, 'flux_fit')[kk]) - 1)
-        case.dev(f'scale_k_flux_{tag}', d)
-        case.check(d <= rt, 'image_times_k_scales_fluxes_by_k', dict(sm, fit=tag), k=k, dev=float(d))
         dp = max(abs(_col(t2, 'x_fit')[kk] - _col(tbl, 'x_fit')[kk]), abs(_col(t2, 'y_fit')[kk] - _col(tbl, 'y_fit')[kk]))
-        case.dev(f'scale_k_pos_{tag}', dp)
-        case.check(dp <= (1e-4 if gsize[i] == 1 else 2 * TOL_GRP['pos']), 'image_times_k_keeps_positions',
-                   dict(sm, fit=tag), k=k, dev=float(dp))
+        pend.setdefault(int(fitgroup[kk]), []).append((kk, tag, d, rt, dp, pt))
+    for g, lst in pend.items():
+        if any(d > rt or dp > pt for (_, _, d, rt, dp, pt) in lst):
+            # Same arbitration as for the recovery checks: the scaled fit is attributed to photutils only when an
+            # independent fit of the scaled problem (own book-keeping, same astropy TRFLSQFitter, same start) does
+            # reproduce the unscaled result.  scipy's TRF measures trust region and xtol in a norm that mixes pixels
+            # and counts (x_scale = 1): on a one-sided, edge-clipped window it stops short for some image scales.
+            rows_g = [kk for (kk, *_rest) in lst]
+            tol = dict(pos=max(pt for (*_a, pt) in lst), flux=max(rt for (_, _, _, rt, _, _) in lst))
+            ok_ind = _independent_fit_recovers(model, t2, rows_g, s, o, d2, mask, e2, bx, by, _col(tbl, 'x_fit'),
+                                               _col(tbl, 'y_fit'), k * _col(tbl, 'flux_fit'), tol)
+            if not ok_ind:
+                case.note('scale_relation_undecided_independent_fit_also_stopped_short')
+                continue
+        for (kk, tag, d, rt, dp, pt) in lst:
+            case.dev(f'scale_k_flux_{tag}', d)
+            case.check(d <= rt, 'image_times_k_scales_fluxes_by_k', dict(sm, fit=tag), k=k, dev=float(d))
+            case.dev(f'scale_k_pos_{tag}', dp)
+            case.check(dp <= pt, 'image_times_k_keeps_positions', dict(sm, fit=tag), k=k, dev=float(dp))
 
 
 def _rel_iterative(case, o, s, model, grouper, data, mask, error, init, bounds, kw, tbl, mech, finder=None, aper=None):
